@@ -80,6 +80,88 @@ def records(buf):
         out.append(buf[0])
         buf = buf[2 + size:]
     return out
+
+import hashlib
+
+KEY = b"k"
+
+def sign(data):
+    return hashlib.md5(data + KEY).digest()
+
+def sign_chunks(*chunks):
+    h = hashlib.md5()
+    for c in chunks:
+        h.update(c)
+    h.update(KEY)
+    return h.digest()
+
+def signed_two_ways(a, b):
+    return sign_chunks(a, b) == sign(a + b)
+
+def switch(data, *, strict=None):
+    if strict is not None and data[0] != strict:
+        raise Err("strict")
+    return data[1:]
+
+def uses_switch(data):
+    return switch(data)
+
+def reject(msg):
+    print(msg)
+    exit(1)
+
+def after_reject(x):
+    if not isinstance(x, int):
+        reject("no")
+    return x + 1
+
+TABLE = None
+
+class Tab:
+    FIELDS = {k: (k - 16) & 0xF for k in range(17, 31)}
+
+    def lookup(self, t):
+        t = int(t)
+        v = self.FIELDS.get(t)
+        if v is None:
+            v = (t - 16) & 0xF
+        return v
+
+def unpack2(buf):
+    lo, hi = buf[:2]
+    return lo | (hi << 8)
+
+def unpack2_checked(buf):
+    if len(buf) < 2:
+        raise Err("short")
+    lo, hi = buf[:2]
+    return lo | (hi << 8)
+
+class Rx:
+    def __init__(self):
+        self._buffer = bytearray()
+        self.out = []
+
+    def feed(self, data):
+        self._buffer += data
+        buffer = self._buffer
+        end = len(buffer)
+        consumed = 0
+        try:
+            while consumed < end:
+                start = buffer.find(b"\\x83\\x70", consumed)
+                if start == -1:
+                    return
+                if end - start < 6:
+                    return
+                total = int.from_bytes(buffer[start + 2:start + 4], "big") + 8
+                if end - start < total:
+                    return
+                self.out.append(bytes(buffer[start:start + total]))
+                consumed = start + total
+        finally:
+            if consumed:
+                del buffer[:consumed]
 '''
 
 
@@ -168,6 +250,32 @@ def main() -> int:
         ea = EventAnalysis(must=True, on_branch=lambda test, truth, st: ["guard"] if not truth else [])
         comp = run_events(prog, prog.func(q + "guarded"), ea)
         check("events:dominance", all("guard" in st for st, n in comp.returns if n is not None))
+        # normal forms added with the refactoring campaigns (rounds 4 and 5)
+        from .terms import none_test, simp_ite, unsupplied_switches
+        from .facts import call_is
+        s = summarize(prog, prog.func(q + "signed_two_ways"))
+        rt = strip(s.returns[0][1])
+        check("nf:incremental-hash+outline", rt[0] == "cmp" and strip(rt[2]) == strip(rt[3]) or (call_is(strip(rt[2]), "hashlib.md5") is False and strip(rt[2]) == strip(rt[3])))
+        check("nf:simp-ite", simp_ite(("ite", ("param", "c"), ("const", 1), ("ite", ("un", "not", ("param", "c")), ("const", 2), ("const", 3)))) ==
+              ("ite", ("param", "c"), ("const", 1), ("const", 2)) and simp_ite(("ite", ("param", "c"), ("const", 1), ("const", 1))) == ("const", 1))
+        check("nf:none-test", none_test(("ite", ("param", "c"), ("tuple", ()), ("const", None))) == ("un", "not", ("param", "c")))
+        check("switch:unsupplied", unsupplied_switches(prog, prog.func(q + "switch")) == {"strict": ("const", None)})
+        s = summarize(prog, prog.func(q + "switch"))
+        check("switch:specialised", not s.raises and len(s.returns) == 1)
+        s = summarize(prog, prog.func(q + "after_reject"))
+        check("never-returns", all(any(call_is(a_, "isinstance") for a_ in atoms(pc_)) for pc_, _t, n_, _ in s.returns if n_ is not None) and bool(s.returns))
+        s = summarize(prog, prog.func(q + "Tab.lookup"))
+        lk = strip(simp_ite(s.return_term()))
+        check("nf:precomputed-table", lk[0] == "bin" and lk[1] == "&" or (lk[0] == "ite" and strip(lk[2]) == strip(lk[3])))
+        for fn, want in (("unpack2", {"ValueError"}), ("unpack2_checked", {"msmart.unit.Err"})):
+            R = Raises(prog, Config())
+            _r, esc = R.analyze(prog.func(q + fn), {"buf": t})
+            check(f"raises:{fn}", {str(e) for e in esc} == want)
+        from .producer import find_offset_form, put_length_bound
+        fr = prog.func(q + "Rx.feed")
+        check("reassembly:offset-form", find_offset_form(summarize(prog, fr), fr) is not None)
+        kept = [strip(rst.env.get("self._buffer", ("top",))) for _pc, _t, _n, rst in summarize(prog, fr).returns]
+        check("terms:del-slice", bool(kept) and all(k_[0] in ("ite", "slice") for k_ in kept))
         # names: a consistent rename of private names is recognised (and only that)
         import ast
         from . import names
